@@ -1816,6 +1816,10 @@ where
                         if stop_voter.rescind() == VoteResult::Unanimous {
                             info!(STOP_VOTED);
                             remote_reason = DisconnectionReason::AgentTimedOut;
+                            // The write holds the sender for the remote: it must still be performed
+                            // so that the sender is returned and the links of the remote can be
+                            // closed during the shutdown.
+                            streams.schedule_write(write.into_future());
                             break;
                         } else {
                             info!(STOP_RESCINDED);
